@@ -1,10 +1,13 @@
 package main
 
 import (
+	"encoding/binary"
 	"fmt"
 	"math"
 
 	geom "github.com/twpayne/go-geom"
+	"github.com/twpayne/go-geom/encoding/wkb"
+	"github.com/twpayne/go-geom/encoding/wkbcommon"
 )
 
 func init() { generators["C01"] = genC01 }
@@ -21,6 +24,15 @@ func (r *Rng) layoutAny() geom.Layout {
 // genCoord: a coordinate of the given length, arbitrary bit patterns.
 func (r *Rng) genCoord(n int) geom.Coord {
 	c := make(geom.Coord, n)
+	if r.chance(1, 12) {
+		// every ordinate the same special value: all zero, all the canonical NaN (the placeholder that
+		// WKB uses for an empty point), all +Inf ...
+		v := math.Float64frombits(specialBits[r.Intn(len(specialBits))])
+		for i := range c {
+			c[i] = v
+		}
+		return c
+	}
 	for i := range c {
 		c[i] = r.anyBits()
 	}
@@ -213,6 +225,23 @@ func leaves3(csss [][][]geom.Coord) []*geom.Coord {
 }
 
 func genC01(r *Rng, e *Emitter, n int) {
+	// "any decoder": binary encodings no encoder writes (members of another dimensionality than the
+	// header says, truncations of them) decode to an error or to a well-formed geometry
+	saved := wkbcommon.MaxGeometryElements
+	for i := 0; i < n/20+20; i++ {
+		c := codecs[r.Intn(len(codecs))]
+		var bo binary.ByteOrder = wkb.XDR
+		if r.chance(1, 2) {
+			bo = wkb.NDR
+		}
+		b := r.mixedMemberEncoding(c, bo)
+		if r.chance(1, 6) {
+			b = b[:r.Intn(len(b)+1)]
+		}
+		e.tally("decoded-mixed-member-layout")
+		c04Run(e, c, [4]int{0, -1, -1, -1}, b)
+	}
+	wkbcommon.MaxGeometryElements = saved
 	for _, bc := range bigCases(n >= 100000) {
 		stride, pts := bc[0], bc[1]
 		l := layoutForStride(stride)
